@@ -134,6 +134,85 @@ var c01Families = &vlib.Check{
 	},
 }
 
+// genNestingDoc: a schema of n nested arrays / objects (a "nesting bomb": two bytes per level) as the body of a TYPE, a
+// response, a Request or JSON-RPC Params; closed, or cut off before the closing brackets.
+func genNestingDoc(r vlib.Rnd, n int) ([]byte, string) {
+	var open, close, shape string
+	switch r.Intn(4) {
+	case 0:
+		open, close, shape = "{\"a\":", "}", "objects"
+	case 1:
+		open, close, shape = "[{\"a\":", "}]", "mixed"
+	default:
+		open, close, shape = "[", "]", "arrays"
+	}
+	levels := n
+	if shape == "mixed" {
+		levels = n / 2
+	}
+	body := strings.Repeat(open, levels) + "1"
+	if vlib.Chance(r, 1, 8) {
+		shape += "-unclosed"
+	} else {
+		body += strings.Repeat(close, levels)
+	}
+	var doc string
+	switch r.Intn(4) {
+	case 0:
+		doc = "JSIGHT 0.3\n\nTYPE @a\n  " + body + "\n\nGET /a\n  200 @a\n"
+	case 1:
+		doc = "JSIGHT 0.3\n\nPOST /a\n  Request\n    " + body + "\n  200 any\n"
+	case 2:
+		doc = "JSIGHT 0.3\n\nURL /r\n  Protocol json-rpc-2.0\n  Method m\n    Params\n      " + body + "\n"
+	default:
+		doc = "JSIGHT 0.3\n\nGET /a\n  200\n    " + body + "\n"
+	}
+	return []byte(doc), shape
+}
+
+// c01Nesting: nesting depth from a few levels to more than a million (a 3 MB document): the build returns a catalog or
+// an error, in time; it does not exhaust the stack of the process.
+var c01Nesting = &vlib.Check{
+	Prop: "C01", Name: "nesting", Quick: 40, Thorough: 1200,
+	Oracle: vlib.IsoOracle, Inner: c01Inner,
+	Gen: func(t *rapid.T) *vlib.Case {
+		r := vlib.RapidRnd{T: t}
+		var n int
+		switch r.Intn(6) {
+		case 0:
+			n = 1 + r.Intn(200)
+		case 1:
+			n = 4800 + r.Intn(300)
+		case 2:
+			n = 5000 + r.Intn(60000)
+		case 3:
+			n = 100000 + r.Intn(900000)
+		default:
+			n = 1000000 + r.Intn(700000)
+		}
+		doc, shape := genNestingDoc(r, n)
+		return &vlib.Case{Project: vlib.SingleFile(doc), Params: map[string]any{"levels": n, "shape": shape}}
+	},
+	Classify: func(c *vlib.Case) (bool, []string) {
+		n := asInt(c.Params["levels"])
+		cls := []string{"shape:" + fmt.Sprint(c.Params["shape"])}
+		switch {
+		case n >= 1000000:
+			cls = append(cls, "levels>=1e6")
+		case n >= 100000:
+			cls = append(cls, "levels>=1e5")
+		case n >= 5000:
+			cls = append(cls, "levels>=5e3")
+		default:
+			cls = append(cls, "levels<5e3")
+		}
+		return n >= 1000, cls
+	},
+	SampleOf: func(c *vlib.Case) any {
+		return map[string]any{"levels": c.Params["levels"], "shape": c.Params["shape"], "bytes": len(c.Project.RootBytes()), "head": clip(c.Project.RootBytes(), 60)}
+	},
+}
+
 // genDescriptionFamily: Description texts whose lines are indented irregularly - more, less, by tabs, whitespace-only lines
 // shorter and longer than the indentation of the text - in the plain and the parenthesised form, under INFO, TAG, a method
 // and a JSON-RPC method, with every line-ending convention; sometimes in an included file, sometimes with a NUL byte.
@@ -332,7 +411,7 @@ var c01Prefix = &vlib.Check{
 }
 
 func init() {
-	vlib.Register(c01Mut, c01Soup, c01Macro, c01Include, c01Roots, c01Prefix, c01LongLines, c01Families)
+	vlib.Register(c01Mut, c01Soup, c01Macro, c01Include, c01Roots, c01Prefix, c01LongLines, c01Families, c01Nesting)
 }
 
 func TestC01(t *testing.T) {
@@ -455,6 +534,7 @@ func TestC01(t *testing.T) {
 	t.Run("macro-graph", c01Macro.Run)
 	t.Run("include-graph", c01Include.Run)
 	t.Run("long-lines", c01LongLines.Run)
+	t.Run("nesting", c01Nesting.Run)
 	if vlib.SharedIsoStarted() {
 		ev.Note("shard %d isolated worker: %s", vlib.Shard(), vlib.SharedIso().Stats())
 	}
